@@ -33,6 +33,17 @@ Definition run_homeo (rk p : Z) (lam : fl) (targets : list (list fl)) (steps : l
       ser_part (bind_update FN b x0 (acc_all FN ps));
       ser_float (bind_forward FN b x0 (acc_all FN ps))].
 
+(* the same with the target given per step: steps = [(targets_t, spikes_t)] *)
+Definition run_homeo_v (rk p : Z) (lam : fl) (steps : list (list (list fl) * list (list Z)))
+           (b : bindT FN) (x0 : fl) : tree :=
+  let rs := h_run_v FN (hredk rk) (hpar p) lam (h_init FN) (map (fun s => (fst s, bits (snd s))) steps) in
+  let ps := map snd rs in
+  Nd [ser_list (fun r => ser_option (fun l => ser_list ser_float (concat l)) (h_rate FN (fst r))) rs;
+      ser_list ser_parts ps;
+      ser_list ser_parts (accs (None, None) ps);
+      ser_part (bind_update FN b x0 (acc_all FN ps));
+      ser_float (bind_forward FN b x0 (acc_all FN ps))].
+
 (* [0; parts of every call; accumulated parts; update value; new weight]  or  [1; error code] *)
 Definition run_stdp (c : config FN) (k : nat) (B : nat) (inps : list (list (bool * bool) * signal FN))
            (b : bindT FN) (w0 : fl) : tree :=
